@@ -10,6 +10,9 @@ import (
 
 const indentStr = "  "
 
+// prettyDictEntry marks an entry that is printed as part of a dictionary.
+type prettyDictEntry struct{ rel.DictEntryTuple }
+
 type Enumerable interface {
 	ArrayEnumerator() rel.ValueEnumerator
 }
@@ -36,7 +39,7 @@ func PrettifyString(val interface{}, indentsNum int) (string, error) {
 	switch t := val.(type) {
 	case rel.EmptySet:
 		return "{}", nil
-	case rel.DictEntryTuple:
+	case prettyDictEntry: // 'k': v inside a dictionary; a lone (@: k, @value: v) is an ordinary tuple
 		key := t.MustGet("@")
 		prettyKey, err := PrettifyString(key, indentsNum)
 		if err != nil {
@@ -53,11 +56,8 @@ func PrettifyString(val interface{}, indentsNum int) (string, error) {
 		if err != nil {
 			return "", err
 		}
-		name := t.Name
-		if name == "" {
-			name = "''"
-		}
-		return fmt.Sprintf("%v: %v", name, prettyVal), nil
+		// quoted unless it is an identifier, as the plain printer does
+		return fmt.Sprintf("%v: %v", rel.TupleNameRepr(t.Name), prettyVal), nil
 	case rel.Tuple: // (a: 1)
 		return prettifyTuple(t, indentsNum+1)
 	case rel.Array: // [1, 2]
@@ -65,11 +65,19 @@ func PrettifyString(val interface{}, indentsNum int) (string, error) {
 	case rel.Dict: // {'a': 1}
 		return prettifyDict(t, indentsNum+1)
 	case rel.Relation:
+		for _, name := range t.AttrsName() {
+			if rel.TupleNameRepr(name) != name {
+				// a relation literal's heading can only hold identifiers: print the tuples
+				return prettifyOrderableSet(t, indentsNum+1)
+			}
+		}
 		return prettifyRelation(t, indentsNum+1)
 	case rel.OrderableSet: // {1, 2}
 		return prettifyOrderableSet(t, indentsNum+1)
 	case rel.String:
 		return prettifyString(t)
+	case rel.Bytes:
+		return fu.Repr(t), nil
 	case nil:
 		return "", nil
 	case fmt.Stringer:
@@ -130,7 +138,7 @@ func prettifyArray(arr rel.Array, indentsNum int) (string, error) {
 func prettifyDict(dict rel.Dict, indentsNum int) (string, error) {
 	vals := make([]rel.Value, dict.Count())
 	for i, item := range dict.OrderedEntries() {
-		vals[i] = item
+		vals[i] = prettyDictEntry{item}
 	}
 	content, err := prettifyItems(vals, indentsNum)
 	if err != nil {
